@@ -379,6 +379,9 @@ class SymEval:
                 return C(v) if not isinstance(v, EnumVal) else ("c", v)
             if isinstance(v, Cls):
                 return ("clsref", v.qual)
+        if n.attr == "is_pdu1_format":
+            # ParameterGroupNumber: PDU1 <=> not PDU2 (proved for every PF by C15's O-PGN obligations)
+            return mk_not(("attr", base, "is_pdu2_format"))
         s = ("attr", base, n.attr)
         return self._heap_read(s)
 
@@ -448,9 +451,9 @@ class SymEval:
         a, b = self.expr(n.body), self.expr(n.orelse)
         if is_const(t) and not isinstance(t[1], EnumVal):
             return a if t[1] else b
-        if a == ("c", True) and b == ("c", False):
+        if is_const(a) and a[1] is True and is_const(b) and b[1] is False and _boolish(t) and t[0] in ("cmp", "not", "bool"):
             return t
-        if a == ("c", False) and b == ("c", True):
+        if is_const(a) and a[1] is False and is_const(b) and b[1] is True and _boolish(t) and t[0] in ("cmp", "not", "bool"):
             return mk_not(t)
         # x if x < y else y   and its spellings  ==  min(x, y) ;  the mirror images == max(x, y)
         tt, neg = (t[1], True) if t[0] == "not" else (t, False)
@@ -461,7 +464,28 @@ class SymEval:
         return ("ife", t, a, b)
 
     def e_List(self, n):
-        return ("list", tuple(self.expr(e) for e in n.elts))
+        items = []
+        parts = []
+        for e in n.elts:
+            if isinstance(e, ast.Starred):
+                v = self.expr(e.value)
+                if v[0] == "list":
+                    items.extend(v[1])
+                else:
+                    if items:
+                        parts.append(("list", tuple(items)))
+                        items = []
+                    parts.append(v)
+            else:
+                items.append(self.expr(e))
+        if not parts:
+            return ("list", tuple(items))
+        if items:
+            parts.append(("list", tuple(items)))
+        out = parts[0]
+        for p in parts[1:]:
+            out = cat(out, p)
+        return out
 
     def e_Tuple(self, n):
         return ("tuple", tuple(self.expr(e) for e in n.elts))
@@ -736,6 +760,10 @@ class SymEval:
                 if cur[0] in ("rep", "upd"):
                     self.env[t.value.id] = ("upd", cur, idx, v)
                     return
+                if cur[0] == "dict" and is_const(idx):
+                    items = [(k, x) for k, x in cur[1] if k != idx] + [(idx, v)]
+                    self.env[t.value.id] = ("dict", tuple(items))
+                    return
         tgt = self._target(t)
         self.effects.append(Eff("store", tgt, v, st))
         if self.use_heap:
@@ -747,12 +775,15 @@ class SymEval:
     def _bind_target(self, t, v):
         if isinstance(t, ast.Name):
             self.env[t.id] = v
+        elif isinstance(t, (ast.Tuple, ast.List)) and len(t.elts) == 2 and v[0] == "call" and v[1] == ("glob", "divmod") and len(v[2]) == 2:
+            self._bind_target(t.elts[0], mk_bin("//", v[2][0], v[2][1]))
+            self._bind_target(t.elts[1], mk_bin("%", v[2][0], v[2][1]))
         elif isinstance(t, (ast.Tuple, ast.List)):
             for i, e in enumerate(t.elts):
                 if v[0] in ("tuple", "list") and len(v[1]) == len(t.elts):
                     self._bind_target(e, v[1][i])
                 else:
-                    self._bind_target(e, ("item", v, i))
+                    self._bind_target(e, self.subscript(v, ("c", i)))
         elif isinstance(t, ast.Starred):
             self._bind_target(t.value, ("item", v, "*"))
         else:
